@@ -19,6 +19,16 @@ import (
 // ErrNoSuffixSet indicates that no suffix set prefilter could be built.
 var ErrNoSuffixSet = errors.New("no suffix set prefilter available")
 
+// suffixSetContainsNewline reports whether any suffix literal contains '\n'.
+func suffixSetContainsNewline(lits *literal.Seq) bool {
+	for i := 0; i < lits.Len(); i++ {
+		if bytes.IndexByte(lits.Get(i).Bytes, '\n') >= 0 {
+			return true
+		}
+	}
+	return false
+}
+
 // ReverseSuffixSetSearcher performs Teddy multi-suffix prefilter + reverse DFA search.
 //
 // This strategy handles patterns like `.*\.(txt|log|md)` where:
@@ -120,7 +130,9 @@ func NewReverseSuffixSetSearcher(
 		prefilter:      pre,
 		pikevm:         pikevm,
 		suffixLiterals: suffixLiterals,
-		matchStartZero: matchStartZero,
+		// The .*literal shortcut works line by line; a suffix literal that itself
+		// contains '\n' can never lie inside one line (see ReverseSuffixSearcher).
+		matchStartZero: matchStartZero && !suffixSetContainsNewline(suffixLiterals),
 	}
 	s.revCachePool = sync.Pool{
 		New: func() any { return s.reverseDFA.NewCache() },
